@@ -274,8 +274,25 @@ func main() {
 				}
 			}
 		}
+		// a listing request that the service refuses: the first one, or a later page
+		f.OnRequest = nil
+		if fault == "" && r.Intn(4) == 0 {
+			failFrom, seen := 1+r.Intn(3), 0
+			f.OnRequest = func(method, key string) string {
+				if method != "LIST" {
+					return ""
+				}
+				seen++
+				if seen >= failFrom {
+					return "403"
+				}
+				return ""
+			}
+			fault = "LIST"
+		}
 		st := newStore(f, "bkt/"+strings.TrimSuffix(prefix, "/"), desync.StoreOptions{Uncompressed: unc, ErrorRetry: r.Intn(2)})
 		perr := st.Prune(context.Background(), keep)
+		f.OnRequest = nil
 		res := "ok"
 		if perr != nil {
 			res = "error"
